@@ -3,7 +3,7 @@ CONSTANT P = 67
 CONSTANT BL = 2
 CONSTANT MaxW = 14
 CONSTANT MaxLen = 3
-CONSTANT Vals = {0, 1, 3}
+CONSTANT Vals <- ValsQuick
 INVARIANT Inv_Sat
 INVARIANT Inv_ValLC
 INVARIANT Inv_Bool
